@@ -24,10 +24,10 @@
 (***************************************************************************)
 EXTENDS SoyMsg
 CONSTANTS MaxParts, MaxInner, Dev, OnlyCase
-VARIABLES c, todo, asg
-vars == <<c, todo, asg>>
+VARIABLES cas, todo, asg
+vars == <<cas, todo, asg>>
 
-Body  == MsgFamBody(c)
+Body  == MsgFamBody(cas)
 Nodes == MsgNodes(Body)
 
 EmptyAsg == [x \in {} |-> <<>>]
@@ -36,8 +36,8 @@ AllCases == IF OnlyCase # "" THEN {x \in MsgFamFlat(MaxParts) \cup MsgFamPlural(
             ELSE MsgFamFlat(MaxParts) \cup MsgFamPlural(MaxInner)
 
 Init ==
-  /\ c \in AllCases
-  /\ todo = MsgBaseSet(MsgNodes(MsgFamBody(c)))
+  /\ cas \in AllCases
+  /\ todo = MsgBaseSet(MsgNodes(MsgFamBody(cas)))
   /\ asg = EmptyAsg
 
 FirstTodo ==
@@ -63,7 +63,7 @@ NameGroup(b) ==
   /\ LET ns == Nodes n == Len(MsgGroupReps(ns, b)) IN
      asg' = IF n = 1 THEN Put(asg, b, <<b, 1>>) ELSE AssignMulti(asg, b, 1, n, 1, MsgBaseSet(ns))
   /\ todo' = todo \ {b}
-  /\ UNCHANGED c
+  /\ UNCHANGED cas
 
 Next == (\E b \in todo : NameGroup(b)) \/ (todo = {} /\ UNCHANGED vars)
 
@@ -132,24 +132,24 @@ Subst(ix, pos, j) == [i \in 1..Len(ix) |-> IF i = pos THEN j ELSE ix[i]]
 Remove(ix, pos) == [i \in 1..(Len(ix) - 1) |-> IF i < pos THEN ix[i] ELSE ix[i + 1]]
 
 KeyFollowsPhString ==
-  (todo = {} /\ c.kind = "flat") =>
+  (todo = {} /\ cas.kind = "flat") =>
     LET b == Body ps == PlaceholderString(b) ks == MsgKeyString(b) IN
-    /\ \A pos \in 1..Len(c.ix), j \in 1..Len(PoolC10) :
-         LET b2 == MsgPick(PoolC10, Subst(c.ix, pos, j)) IN
+    /\ \A pos \in 1..Len(cas.ix), j \in 1..Len(PoolC10) :
+         LET b2 == MsgPick(PoolC10, Subst(cas.ix, pos, j)) IN
          (PlaceholderString(b2) = ps) <=> (MsgKeyString(b2) = ks)
-    /\ \A pos \in 1..Len(c.ix) :
-         LET b2 == MsgPick(PoolC10, Remove(c.ix, pos)) IN
+    /\ \A pos \in 1..Len(cas.ix) :
+         LET b2 == MsgPick(PoolC10, Remove(cas.ix, pos)) IN
          PlaceholderString(b2) # ps /\ MsgKeyString(b2) # ks
 
 \* plural structure is part of the key: changing the case value, the
 \* subject's name or a case body changes the key
 PluralInKey ==
-  (todo = {} /\ c.kind = "plural") =>
+  (todo = {} /\ cas.kind = "plural") =>
     LET ks == MsgKeyString(Body) IN
-    /\ \A j \in 1..Len(MsgCaseSets) : j # c.cs /\ Len(MsgCaseSets[j]) = Len(MsgCaseSets[c.cs]) =>
-         MsgKeyString(MsgFamBody([c EXCEPT !.cs = j])) # ks
+    /\ \A j \in 1..Len(MsgCaseSets) : j # cas.cs /\ Len(MsgCaseSets[j]) = Len(MsgCaseSets[cas.cs]) =>
+         MsgKeyString(MsgFamBody([cas EXCEPT !.cs = j])) # ks
     /\ \A db \in MsgIxSeqs(1, Len(MsgInnerPool)) :
-         LET b2 == MsgFamBody([c EXCEPT !.db = db]) IN
+         LET b2 == MsgFamBody([cas EXCEPT !.db = db]) IN
          (PlaceholderString(b2) = PlaceholderString(Body)) <=> (MsgKeyString(b2) = ks)
 
 WellFormedFamily == MsgWellFormed(Body)
